@@ -8,7 +8,7 @@ PROP_MODULES = ['Jwt.Props.C03']
 PROP_FILES = ['Jwt/Props/C03.lean']
 GENERATED_FACT_THEOREMS = 0
 CHECKER_CMD = "cd lean && lake build Jwt.Props.C03 && lake env lean <generated #print axioms file>"
-LEVEL_TEXT = ('Lean theorems for every Env/callback/token: with a key in force acceptance needs a non-empty third segment and a header alg other than none; without a key only the exact four bytes none with an empty third segment and no configured alg. Tied to the code by the exhaustive matrix (token shapes with absent/garbage/valid signatures, alg none/None/NONE/other/missing) on setkey and callback routes.')
+LEVEL_TEXT = ('Lean theorems for every Env/callback/token: with a key in force acceptance needs a non-empty third segment and a header alg other than none; without a key only the exact four bytes none with an empty third segment and no configured alg. Builder: with a key in force after the callback generate fails or signs with the pinned algorithm, without one it emits only alg-none tokens ending in an empty segment (all callbacks). Tied to the code by the exhaustive matrix (token shapes with absent/garbage/valid signatures, alg none/None/NONE/other/missing) on setkey and callback routes, and by exhaustive builder key/alg routes.')
 ASSUMPTIONS = F.COMMON_ASSUME + []
 TRUSTED_BASE = F.COMMON_TRUSTED
 replay = F.replay
@@ -19,4 +19,6 @@ def run(ctx, model_ok, deep=False):
         ("alg-matrix", None, S.falsify_accept,
          "all cells: configured alg x key x route; 23 header variants x signature classes incl. empty third segment", True),
         ("token-shapes", S.token_shapes, S.falsify_accept, "2, 3 and 4+ segment shapes with empty/non-empty parts under keyless and keyed checkers", True),
+        ("builder-routes", S.builder_routes_suite, S.falsify_builder_routes,
+         "every pool key x JWK alg attribute x private/public x explicit alg x route {setkey, callback sets key only, callback sets key and alg, setkey then callback removes key}; token decoded by an independent reader", True),
     ])
